@@ -12,7 +12,9 @@ Record obs := mkObs {
   ob_props : list pobs;                  (* ascending ids *)
   ob_voters : list (N * N);              (* ListVoters paged (fixed: VOTERS; flex: the group's members now) *)
   ob_ms_native : N; ob_ms_cw20 : N;      (* balances of the multisig (deposit denom / deposit token) *)
-  ob_native : list (N * N); ob_cw20 : list (N * N)   (* balances of every pool address *)
+  ob_native : list (N * N); ob_cw20 : list (N * N);  (* balances of every pool address *)
+  ob_view_bad : list N                   (* ids whose single Proposal{id} answer differs from their ListProposals entry;
+                                            0 = the reverse listing differs from the forward one *)
 }.
 
 (* what the group answers during this call (flex); recorded by the harness from the real group *)
@@ -21,7 +23,9 @@ Record genv := mkGe {
   ge_total : N;                          (* raw total now *)
   ge_at : list (N * N * option N);       (* Member{a, at_height h} for every pool address x start height of a proposal *)
   ge_block_start : list (N * N);         (* ListMembers as it was when this block began *)
-  ge_changed : bool                      (* a membership change was made earlier in this very block *)
+  ge_changed : bool;                     (* a membership change was made earlier in this very block *)
+  ge_snaps : list (N * list (N * N))     (* per proposal id: ListMembers as it was when its creation block began
+                                            (recorded by the harness, independent of the at-height queries) *)
 }.
 
 Definition lookup (l : list (N * N)) (a : N) : option N :=
@@ -108,7 +112,11 @@ Definition s_c03_prop (blk : block) (p : pobs) : N :=
   end.
 Fixpoint first_nonzero (l : list N) : N :=
   match l with [] => 0 | x :: r => if x =? 0 then first_nonzero r else x end.
-Definition s_c03 (blk : block) (o : obs) : N := first_nonzero (map (s_c03_prop blk) (ob_props o)).
+Definition s_c03 (blk : block) (o : obs) : N :=
+  match ob_view_bad o with
+  | _ :: _ => 9                          (* the queries report one proposal (status / threshold / total) differently *)
+  | [] => first_nonzero (map (s_c03_prop blk) (ob_props o))
+  end.
 
 (* ---------------------------------------------------------------------------------------- *)
 (* S_C05 *)
@@ -160,7 +168,8 @@ Definition s_c05_call (pre : obs) (blk : block) (gv : gview) (executor : option 
 
 Definition s_c05 (pre post : obs) (blk : block) (gv : gview) (executor : option executor) (is_flex : bool)
            (period : duration) (calls : list hcall) (ok : bool) : N :=
-  if negb ok then (if list_eqb pobs_eqb (ob_props pre) (ob_props post) then 0 else 10)   (* a failed transaction changed proposals *)
+  if match ob_view_bad post with _ :: _ => true | [] => false end then 16   (* the queries report one proposal differently *)
+  else if negb ok then (if list_eqb pobs_eqb (ob_props pre) (ob_props post) then 0 else 10)   (* a failed transaction changed proposals *)
   else
   let c1 := first_nonzero (map (s_c05_call pre blk gv executor is_flex calls) calls) in
   if negb (c1 =? 0) then c1 else
@@ -228,6 +237,11 @@ Definition s_c06_full (pre post : obs) (blk : block) (is_flex : bool) (g : genv)
                 else if status_eqb (po_status p) Executed then 3             (* ballot on an executed proposal *)
                 else if negb (opt_eqb N.eqb (weight_src is_flex pre g sender h) (Some w)) then 4  (* weight <> snapshot weight *)
                 else if w <? 1 then 5                                        (* zero-weight vote *)
+                else if is_flex &&
+                        match find (fun x => fst x =? id) (ge_snaps g) with
+                        | Some (_, snap) => negb (opt_eqb N.eqb (lookup snap sender) (Some w))
+                        | None => false
+                        end then 9          (* weight <> the member's weight when the proposal's block began *)
                 else 0
             | None => 1
             end
